@@ -26,7 +26,37 @@ Section G.
     intros H1 H2. apply generated_verify_exact in H1. apply generated_verify_exact in H2.
     cbn [tg_pt tg_scheme] in *. destruct H1 as (_ & _ & E1), H2 as (_ & _ & E2). congruence.
   Qed.
+  (* C02: what the translated verifier accepts under sk's public key is what the translated signer produces *)
+  Theorem generated_accepted_is_honest (sk : car K) (s : scheme) (p : pt K Gsig) (msg : bytes) :
+    gen_Signature_verify E (mktagged s p) (public_key sk) msg = Val (Ok tt) ->
+    gen_SecretKey_sign E sk s msg = Val (Ok (mktagged s p)).
+  Proof.
+    rewrite r_sig_verify, r_sk_sign. intros H. injection H as H.
+    rewrite (C02_accepted_is_honest K laws O C sk s p msg H). reflexivity.
+  Qed.
+
+  (* C02: any other group element is rejected *)
+  Theorem generated_other_point_rejected (sk : car K) (s : scheme) (sg : tagged) (p' : pt K Gsig) (msg : bytes) :
+    gen_SecretKey_sign E sk s msg = Val (Ok sg) -> p' <> tg_pt sg ->
+    gen_Signature_verify E (mktagged s p') (public_key sk) msg <> Val (Ok tt).
+  Proof.
+    rewrite r_sig_verify, r_sk_sign. intros Hs Hne Hv. injection Hs as Hs. injection Hv as Hv.
+    exact (C02_other_point_rejected K laws O C sk s sg p' msg Hs Hne Hv).
+  Qed.
+
+  (* C02: Basic / PoP - no other public key accepts the signature *)
+  Theorem generated_other_key_rejected (sk : car K) (s : scheme) (sg : tagged) (pk' : pt K Gpk) (msg : bytes) :
+    s <> Aug -> Hs K O C s (public_key sk) msg <> f0 K ->
+    gen_SecretKey_sign E sk s msg = Val (Ok sg) ->
+    gen_Signature_verify E sg pk' msg = Val (Ok tt) -> pk' = public_key sk.
+  Proof.
+    intros Ha Hh. rewrite r_sig_verify, r_sk_sign. intros Hs Hv. injection Hs as Hs. injection Hv as Hv.
+    exact (C02_other_key_rejected K laws O C sk s sg pk' msg Ha Hh Hs Hv).
+  Qed.
 End G.
 
 Print Assumptions generated_verify_exact.
 Print Assumptions generated_verify_unique.
+Print Assumptions generated_accepted_is_honest.
+Print Assumptions generated_other_point_rejected.
+Print Assumptions generated_other_key_rejected.
